@@ -661,6 +661,9 @@ func ExecAlias(op M) (res any) {
 		var doc *sbom.Document
 		if d, ok := op["doc"].(M); ok {
 			doc = &sbom.Document{Metadata: metaOf(op["meta"]), NodeList: NLOf(d)}
+			if op["nolist"] == true {
+				doc.NodeList = nil
+			}
 			padCapacity(doc, 2)
 		}
 		ops := readOnlyOps(a, b, n, m, doc)
@@ -683,6 +686,9 @@ func ExecAlias(op M) (res any) {
 			func() {
 				defer func() {
 					if r := recover(); r != nil {
+						if op["nolist"] == true && (strings.HasPrefix(name, "Serialize") || strings.HasPrefix(name, "Document.")) {
+							return // the document is not one the call accepts; its snapshot is still compared
+						}
 						add("C11", fmt.Sprintf("%s panicked: %v", name, r))
 					}
 				}()
@@ -867,7 +873,13 @@ func aliasGen(g *G, tier string) []M {
 					at["FileTypes"] = []any{"", "TEXT"}
 				}
 			}
-			ops = append(ops, M{"op": "snap", "a": a, "b": b, "n": zn, "m": zm, "doc": doc, "meta": g.docMeta()})
+			sn := M{"op": "snap", "a": a, "b": b, "n": zn, "m": zm, "doc": doc, "meta": g.docMeta()}
+			if g.Chance(0.15) {
+				// a document that has metadata only: its node list is absent. A call on it may refuse
+				// the document or even fail; what it may not do is fill the document in
+				sn["nolist"] = true
+			}
+			ops = append(ops, sn)
 		}
 	}
 	return ops
